@@ -251,6 +251,40 @@ def run(ctx):
     opts = sorted(rsk.text(rsk.nodes[i]["args"][2]) for i in so if len(rsk.nodes[i].get("args", [])) >= 3)
     ctx.check(any("20" == o or "SO_RCVTIMEO" in o for o in opts) and any("21" == o or "SO_SNDTIMEO" in o for o in opts) and len(so) >= 2, "socket-timeouts-installed", "call-site", rsk.loc(),
               "receive and send time-outs are set on accepted connections", "SO_RCVTIMEO / SO_SNDTIMEO are not both set: " + str(opts))
+    # ... and they are valid: a timeval with tv_usec >= 1 000 000 makes setsockopt fail with EDOM, and the result is not looked at
+    for i in so:
+        a = rsk.nodes[i]["args"]
+        if len(a) < 5:
+            continue
+        src = rsk.text(a[3])
+        tv = None
+        for _hop in range(3):
+            m = re.search(r"&(\w+)", src)
+            if m:
+                init_, v_ = local_init(rsk, m.group(1), must=False)
+                if v_ is not None and init_ is not None and init_ >= 0:
+                    tv = rsk.nodes[rsk.strip(init_)]
+                break
+            m2 = re.match(r"^(\w+)$", src.strip())
+            if not m2:
+                break
+            init_, v_ = local_init(rsk, m2.group(1), must=False)
+            if v_ is None or init_ is None or init_ < 0:
+                break
+            src = rsk.text(init_)
+        lits = None
+        if tv is not None and tv["k"] == "initlist" and len(tv.get("kids", [])) == 2:
+            ks = [rsk.nodes[rsk.strip(k)] for k in tv["kids"]]
+            if all(k["k"] == "lit" and re.match(r"^\d+$", str(k.get("v", ""))) for k in ks):
+                lits = [int(k["v"]) for k in ks]
+        par = rsk.parent.get(i)
+        tested = par is not None and rsk.nodes[par]["k"] not in ("compound",)
+        valid = lits is not None and lits[0] + lits[1] > 0 and 0 <= lits[1] < 1000000
+        ctx.check(valid or tested, "socket-timeout-value-valid@%d" % rsk.nodes[i].get("line", 0), "constant evaluation / error discipline", rsk.loc(i),
+                  "the time-out is a literal timeval with tv_usec < 1000000 (or the setsockopt result is tested)",
+                  "the timeval handed to setsockopt (%s) is not a literal {sec, usec < 1000000} and the call's result is dropped: an invalid value "
+                  "(tv_usec >= 1000000 -> EDOM) silently leaves accepted connections without any time-out" % (
+                      [rsk.text(k) for k in tv["kids"]] if tv is not None and tv.get("kids") else src[:60]))
     # ------------------------------------------------ reset keeps keys
     rsf = ctx.fn1("Oomd::Stats::reset")
     muts = []
